@@ -146,6 +146,17 @@ impl Property for C18 {
             let y4: TxIn = lib_call("TxIn from_str", || serde_json::from_str(&s))?.map_err(|e| failure("txin_json_string_decodes", format!("Err({})", e), "Ok"))?;
             same_txin(&x, &y4, "txin_json_string")?;
         }
+        // single outputs through serde
+        for i in 0..tx.get_noutputs().min(4) {
+            let x = tx.get_output(i).unwrap();
+            let v = lib_call("TxOut::to_json", || x.to_json())?.map_err(|e| failure("txout_to_json", e.to_string(), "Ok"))?;
+            let y: bsv::TxOut = lib_call("TxOut from_value", || serde_json::from_value(v.clone()))?.map_err(|e| failure("txout_json_decodes", format!("Err({})", e), "Ok"))?;
+            ensure!(x == y, "txout_json_equal", format!("{:?}", y), format!("{:?}", x));
+            let s = lib_call("TxOut::to_json_string", || x.to_json_string())?.map_err(|e| failure("txout_to_json_string", e.to_string(), "Ok"))?;
+            let y2: bsv::TxOut = lib_call("TxOut from_str", || serde_json::from_str(&s))?.map_err(|e| failure("txout_json_string_decodes", format!("Err({})", e), "Ok"))?;
+            ensure!(x == y2, "txout_json_string_equal", "differs", "equal");
+            ensure_eq!(y2.get_satoshis(), x.get_satoshis(), "txout_json_value");
+        }
         o.nt_if(any_ext, "extended-fields");
         o.nt_if(r.ins.iter().any(|i| i.is_null_outpoint()), "coinbase-input");
         o.nt_if(r.outs.iter().any(|x| x.value >= 1 << 53) || c.ext.iter().any(|e| e.satoshis.map(|v| v >= 1 << 53).unwrap_or(false)), "value>=2^53");
